@@ -1,57 +1,161 @@
-//! Model of the two bitcoind RPCs the Carrier uses, including *shape-compatible* error types.
+//! Model of the two bitcoind RPCs the Carrier uses (compiled instead of `bitcoincore_rpc::{Client, RpcApi, Error}` under
+//! cfg(kani); teos/src/carrier.rs imports these under the aliases it uses for the real types).
+//!
+//! Contract: every call returns *any* outcome the real client can produce, as far as the Carrier can tell them apart:
+//! `Ok`, `Err(JsonRpc(Rpc{code: any i32}))`, `Err(JsonRpc(Transport))`, `Err(JsonRpc(other))`, other `Err`.
+//! The error enums are light, shape-compatible copies (the real ones carry `Box<dyn Error>`, `io::Error`,
+//! `serde_json::Error`, whose drop glue makes CBMC explode once the discriminant is symbolic).
+//! Transport errors are only produced while `TRANSPORT_BUDGET > 0` (the harness bounds the length of an outage).
+//! Every call is logged in typed statics that the harness inspects.
 use bitcoin::{Transaction, Txid};
 
 pub const MAX_LOG: usize = 8;
+
+#[derive(Clone, Copy, PartialEq, Eq, Debug)]
+pub enum Outcome {
+    Ok,
+    OkConfirmed, // get_raw_transaction_info only: Ok with a block hash
+    Rpc(i32),
+    JsonOther,
+    Other,
+}
+
+pub static mut SENT: [Option<Txid>; MAX_LOG] = [None; MAX_LOG];
+pub static mut N_SENT: usize = 0;
+pub static mut QUERIED: [Option<Txid>; MAX_LOG] = [None; MAX_LOG];
+pub static mut N_QUERIED: usize = 0;
+/// Number of transport errors the model may still produce.
+pub static mut TRANSPORT_BUDGET: u8 = 0;
+/// Number of transport errors produced so far.
+pub static mut N_TRANSPORT: u8 = 0;
+/// Outcome of the last call that was not a transport error.
+pub static mut LAST_OUTCOME: Option<Outcome> = None;
+/// Outcome of the i-th `send_raw_transaction` call (None = transport error).
+pub static mut SEND_OUTCOMES: [Option<Outcome>; MAX_LOG] = [None; MAX_LOG];
+/// Optional script: when `Some`, the next non-transport outcome is this one (and the script is consumed).
+pub static mut SCRIPT: Option<Outcome> = None;
+/// Same for `get_raw_transaction_info` (not consumed: every query gets this reply while set).
+pub static mut QUERY_SCRIPT: Option<Outcome> = None;
+
 #[derive(Debug)]
 pub struct Client {
-    pub sent: std::cell::RefCell<([Option<Txid>; MAX_LOG], usize)>,
+    _handle: u8,
 }
-unsafe impl Sync for Client {}
 impl Client {
     pub fn model() -> Self {
-        Client { sent: std::cell::RefCell::new(([None; MAX_LOG], 0)) }
+        Client { _handle: 0 }
     }
 }
 
 #[derive(Debug)]
-pub struct RpcErr { pub code: i32 }
-#[derive(Debug)]
-pub enum JError { Rpc(RpcErr), Transport(()), Other }
-#[derive(Debug)]
-pub enum Error { JsonRpc(JError), Other }
-impl std::fmt::Display for Error {
-    fn fmt(&self, f: &mut std::fmt::Formatter) -> std::fmt::Result { write!(f, "rpc error") }
+pub struct RpcErr {
+    pub code: i32,
 }
-pub struct RawInfo { pub blockhash: Option<bitcoin::BlockHash> }
+#[derive(Debug)]
+pub enum JError {
+    Rpc(RpcErr),
+    Transport(()),
+    Other,
+}
+#[derive(Debug)]
+pub enum Error {
+    JsonRpc(JError),
+    Other,
+}
+impl std::fmt::Display for Error {
+    fn fmt(&self, f: &mut std::fmt::Formatter) -> std::fmt::Result {
+        write!(f, "rpc error")
+    }
+}
+pub struct RawInfo {
+    pub blockhash: Option<bitcoin::BlockHash>,
+}
 
 pub trait RpcApi {
     fn send_raw_transaction(&self, tx: &Transaction) -> Result<Txid, Error>;
     fn get_raw_transaction_info(&self, txid: &Txid, bh: Option<&bitcoin::BlockHash>) -> Result<RawInfo, Error>;
 }
 
-fn any_error() -> Error {
-    match kani::any::<u8>() % 3 {
-        0 => Error::JsonRpc(JError::Rpc(RpcErr { code: kani::any() })),
-        1 => Error::JsonRpc(JError::Other),
+fn transport_now() -> bool {
+    unsafe {
+        if TRANSPORT_BUDGET > 0 && kani::any() {
+            TRANSPORT_BUDGET -= 1;
+            N_TRANSPORT += 1;
+            true
+        } else {
+            false
+        }
+    }
+}
+
+fn any_outcome(allow_confirmed: bool) -> Outcome {
+    unsafe {
+        if let Some(o) = SCRIPT.take() {
+            return o;
+        }
+    }
+    match kani::any::<u8>() % 5 {
+        0 => Outcome::Ok,
+        1 => {
+            if allow_confirmed {
+                Outcome::OkConfirmed
+            } else {
+                Outcome::Ok
+            }
+        }
+        2 => Outcome::Rpc(kani::any()),
+        3 => Outcome::JsonOther,
+        _ => Outcome::Other,
+    }
+}
+
+fn to_err(o: Outcome) -> Error {
+    match o {
+        Outcome::Rpc(code) => Error::JsonRpc(JError::Rpc(RpcErr { code })),
+        Outcome::JsonOther => Error::JsonRpc(JError::Other),
         _ => Error::Other,
     }
 }
 
 impl RpcApi for Client {
     fn send_raw_transaction(&self, tx: &Transaction) -> Result<Txid, Error> {
-        let mut s = self.sent.borrow_mut();
-        let n = s.1;
-        kani::assume(n < MAX_LOG);
-        s.0[n] = Some(tx.compute_txid());
-        s.1 = n + 1;
-        if kani::any() { Ok(tx.compute_txid()) } else { Err(any_error()) }
+        unsafe {
+            kani::assume(N_SENT < MAX_LOG);
+            SENT[N_SENT] = Some(tx.compute_txid());
+            N_SENT += 1;
+        }
+        if transport_now() {
+            return Err(Error::JsonRpc(JError::Transport(())));
+        }
+        let o = any_outcome(false);
+        unsafe {
+            LAST_OUTCOME = Some(o);
+            SEND_OUTCOMES[N_SENT - 1] = Some(o);
+        }
+        match o {
+            Outcome::Ok | Outcome::OkConfirmed => Ok(tx.compute_txid()),
+            e => Err(to_err(e)),
+        }
     }
-    fn get_raw_transaction_info(&self, _txid: &Txid, _bh: Option<&bitcoin::BlockHash>) -> Result<RawInfo, Error> {
+    fn get_raw_transaction_info(&self, txid: &Txid, _bh: Option<&bitcoin::BlockHash>) -> Result<RawInfo, Error> {
         use bitcoin::hashes::Hash;
-        if kani::any() {
-            Ok(RawInfo { blockhash: if kani::any() { Some(bitcoin::BlockHash::all_zeros()) } else { None } })
-        } else {
-            Err(any_error())
+        unsafe {
+            kani::assume(N_QUERIED < MAX_LOG);
+            QUERIED[N_QUERIED] = Some(*txid);
+            N_QUERIED += 1;
+        }
+        if transport_now() {
+            return Err(Error::JsonRpc(JError::Transport(())));
+        }
+        let o = match unsafe { QUERY_SCRIPT } {
+            Some(o) => o,
+            None => any_outcome(true),
+        };
+        unsafe { LAST_OUTCOME = Some(o) };
+        match o {
+            Outcome::Ok => Ok(RawInfo { blockhash: None }),
+            Outcome::OkConfirmed => Ok(RawInfo { blockhash: Some(bitcoin::BlockHash::all_zeros()) }),
+            e => Err(to_err(e)),
         }
     }
 }
